@@ -140,7 +140,11 @@ fn cons_model(t: &[usize]) -> Model {
         }
         v
     };
-    m.cons.wallcons.push(wallcons("c3", &[(uid("m3"), 0.1)])); // never used, first
+    // never used, first - in every other model; in the others the material m3 is an orphan from the start and every
+    // construction there is may be in use
+    if t[6] % 2 == 0 {
+        m.cons.wallcons.push(wallcons("c3", &[(uid("m3"), 0.1)]));
+    }
     m.cons.wallcons.push(wallcons("c1", &lay(t[1])));
     m.cons.wallcons.push(wallcons("c2", &lay(t[2])));
     m.cons.materials.push(mat_detailed("m1", 0.04));
